@@ -24,6 +24,14 @@ def main():
         pid_extract = 'Extract/' + a.pid
         extract = getattr(mod, 'EXTRACT_FILES', [pid_extract] if os.path.exists('%s/%s.v' % (vlib.COQ, pid_extract)) else [])
         pr = vlib.standard_proof_part(ctx, verdict, mod.PROP_FILES, getattr(mod, 'EXTRA_OBLIGATION_FILES', ()), extract)
+        if os.environ.get('VERIF_EXTRA_OVERLAY'):
+            # mutant run: the shared coq/Gen is left alone, so the obligations about the terms generated
+            # from the source (lock graph, guards, atomicity) are re-generated and re-proved privately
+            from props import panellib
+            gen_obl = [f for f in getattr(mod, 'EXTRA_OBLIGATION_FILES', ()) if panellib.is_generated_obligation(f)]
+            if gen_obl:
+                for f, err in panellib.check_generated_obligations(ctx, gen_obl)['errors']:
+                    pr['broken'].append((f + ('.v' if f.startswith('Proofs/') else ''), err))
         corr = mod.correspondence(ctx, verdict, pr)
         new_before = len(verdict.violations)
         problems = [('proof obligation %s' % f, e) for f, e in pr['broken']] + \
